@@ -183,6 +183,9 @@ class H5ScalarEvent(np.lib.mixins.NDArrayOperatorsMixin):
     def __array__(self, dtype=None, copy=copy_if_needed, *args, **kwargs):
         if self._array is None:
             self._array = np.asarray(self.h5ds, *args, **kwargs)
+            # The cached array is handed out to the user. Make sure it
+            # cannot be modified in-place.
+            self._array.setflags(write=False)
         return np.array(self._array, dtype=dtype, copy=copy)
 
     def __getitem__(self, idx):
